@@ -55,8 +55,25 @@ class Gen:
         raise ValueError("no alternative produced a value")
 
     def fresh(self, base="v"):
+        """A new name - or, sometimes, a name whose scope has ended (a finished loop's variable, a block local, a match binding):
+        rebinding a dead name is legal and must behave like any other new binding."""
+        retired = getattr(self, "retired", None)
+        if retired and self.on("name.reuse_dead", 0.2):
+            visible = set(n for sc in self.scopes for n in sc)
+            cands = [n for n in retired if n not in visible]
+            if cands:
+                return self.r.choice(cands)
         self.nvar += 1
         return "%s%d" % (base, self.nvar)
+
+    def pop_scope(self):
+        sc = self.scopes.pop()
+        if not hasattr(self, "retired"):
+            self.retired = []
+        for n in sc:
+            if n not in ("self", "p0", "p1", "p2") and n not in self.retired:
+                self.retired.append(n)
+        return sc
 
     def vars_of(self, ty, mutable=None):
         out = []
@@ -330,7 +347,7 @@ class Gen:
                     lambda: ("cmp", r.choice(["<", ">"]), ("bin", "*", v, v), ("int", r.randint(2, 20))),
                 ])()
         finally:
-            self.scopes.pop()
+            self.pop_scope()
         return ("listcomp", body, var, src, cond)
 
     def e_list_str(self, d=0):
@@ -375,6 +392,8 @@ class Gen:
             return self.e_model(ty[1], d)
         if ty[0] == "enum":
             return self.e_enum(ty[1], d)
+        if ty[0] == "list" and isinstance(ty[1], tuple) and ty[1][0] == "model":
+            return ("list", [self.e_model(ty[1][1], d + 1) for _ in range(self.r.randint(2, 3))])
         raise ValueError(ty)
 
     def call_of(self, ty, d):
@@ -384,13 +403,47 @@ class Gen:
         name, ptys, _ = self.r.choice(fs)
         return ("call", name, [self.e_of(t, d + 2) for t in ptys])
 
+    def model_fields(self, mname):
+        for m in self.models:
+            if m[0] == mname:
+                return m[1]
+        return []
+
+    def places(self, want_mut=None):
+        """(place expression, leaf type, feature or None) for every primitive field reachable from a visible model variable
+        (v.f, v.child.f) or from an element of a visible list of models (xs[0].f, xs[-1].child.f)."""
+        out = []
+
+        def walk(base, mname, feat, depth):
+            for fn, ft in self.model_fields(mname):
+                e = ("field", base, fn)
+                if isinstance(ft, tuple) and ft[0] == "model":
+                    if depth < 2:
+                        walk(e, ft[1], (feat + "+nested") if feat else "place.nested_field", depth + 1)
+                else:
+                    out.append((e, ft, feat))
+        for m in self.models:
+            for v in self.vars_of(("model", m[0]), want_mut):
+                walk(("var", v), m[0], None, 0)
+            for v in self.vars_of(("list", ("model", m[0])), want_mut):
+                for i in (("int", 0), ("int", 1), ("neg", ("int", 1))):
+                    walk(("idx", "list", ("var", v), i), m[0], "place.list_elem_field", 0)
+        return [(e, t, f) for (e, t, f) in out if f is None or f.split("+")[0] not in self.avoid and not (f.endswith("+nested") and "place.nested_field" in self.avoid)]
+
     def field_of(self, ty):
         cands = []
-        for mname, fields in [(m[0], m[1]) for m in self.models]:
-            for v in self.vars_of(("model", mname)):
-                for fn, ft in fields:
-                    if ft == ty:
-                        cands.append(("field", ("var", v), fn))
+        for e, ft, feat in self.places():
+            if ft == ty:
+                cands.append((e, feat))
+        if cands and not (self.in_func and self.in_func.startswith("method:")):
+            e, feat = self.r.choice(cands)
+            if feat:
+                if ty == STR and feat.startswith("place.list_elem") and not self.on("place.list_elem_str_read", 1.0):
+                    return None
+                for f in feat.split("+"):
+                    self.feat.add("place.nested_field" if f == "nested" else f)
+            return e
+        cands = []
         if self.in_func and self.in_func.startswith("method:"):
             mname = self.in_func.split(":")[1]
             for m in self.models:
@@ -469,6 +522,13 @@ class Gen:
                     for fn, ft in m[1]:
                         out += self.print_of(ft, ("field", e, fn))
             return out
+        if ty[0] == "list" and isinstance(ty[1], tuple) and ty[1][0] == "model":
+            out = [("print", ("len", e))]
+            for i in (("int", 0), ("neg", ("int", 1))):
+                for fn, ft in self.model_fields(ty[1][1]):
+                    if ft in (INT, FLOAT, BOOL):
+                        out += self.print_of(ft, ("field", ("idx", "list", e, i), fn))
+            return out
         if ty[0] == "enum":
             return self.match_enum(ty[1], e, observe=True)
         raise ValueError(ty)
@@ -491,7 +551,7 @@ class Gen:
                         body += self.print_of(t, ("var", b))
                     if not observe:
                         body += self.block(2, maxn=2)
-                    self.scopes.pop()
+                    self.pop_scope()
                     arms.append((pat, body))
                 if use_wild:
                     arms.append((("wild",), [("print", ("str", "other"))]))
@@ -503,7 +563,11 @@ class Gen:
         r = self.r
         tys = [INT] * 5 + [STR] * 3 + [FLOAT] * 2 + [BOOL] * 2 + [LINT] * 2 + [LSTR, DSI, OINT]
         tys += [("model", m[0]) for m in self.models] * 2 + [("enum", e[0]) for e in self.enums]
+        if self.models and "decl.list_of_models" not in self.avoid:
+            tys += [("list", ("model", m[0])) for m in self.models]
         ty = r.choice(tys)
+        if ty[0] == "list" and isinstance(ty[1], tuple):
+            self.feat.add("decl.list_of_models")
         e = self.e_of(ty, 0)
         for _ in range(5):
             # a binding initialised directly from another str/collection variable aliases it (copy-vs-move is undocumented)
@@ -532,8 +596,8 @@ class Gen:
             ("list.set", 1.5, lambda: (lambda vs: [("setidx", ("var", r.choice(vs)), self.index_expr(1), self.e_int(2))] if vs else None)(self.vars_of(LINT, True))),
             ("list.aug_elem", 0.8, lambda: (lambda vs: [("aug", r.choice(["+", "*", "-"]), ("idx", "list", ("var", r.choice(vs)), ("int", 0)), self.atom_int())] if vs else None)(self.vars_of(LINT, True))),
             ("dict.set", 1.5, lambda: (lambda vs: [("setidx", ("var", r.choice(vs)), ("str", r.choice(KEYS)), self.e_int(2))] if vs else None)(self.vars_of(DSI, True))),
-            ("field.set", 2, lambda: self.field_set()),
-            ("field.aug", 1, lambda: self.field_set(aug=True)),
+            ("field.set", 3, lambda: self.field_set()),
+            ("field.aug", 1.5, lambda: self.field_set(aug=True)),
             ("method.mut_call", 1.5, lambda: self.mut_method_call()),
         ]
         return self.pick(opts)
@@ -551,19 +615,23 @@ class Gen:
 
     def field_set(self, aug=False):
         cands = []
-        for mname, fields, _m in [(m[0], m[1], m[2]) for m in self.models]:
-            for v in self.vars_of(("model", mname), True):
-                for fn, ft in fields:
-                    if ft == INT or (ft == STR and not aug and "field.set_str" not in self.avoid):
-                        cands.append((v, fn, ft))
+        for e, ft, feat in self.places(True):
+            if ft == INT or (ft == STR and not aug and feat is None and "field.set_str" not in self.avoid):
+                cands.append((e, ft, feat))
         if not cands:
             return None
-        v, fn, ft = self.r.choice(cands)
+        # prefer the deeper places when there are any: they are the rarer ones
+        deep = [c for c in cands if c[2]]
+        e, ft, feat = self.r.choice(deep if deep and self.r.random() < 0.6 else cands)
+        if feat:
+            for f in feat.split("+"):
+                self.feat.add("place.nested_field" if f == "nested" else f)
+            self.feat.add("assign.through_place")
         if aug:
-            return [("aug", self.r.choice(["+", "-", "*"]), ("field", ("var", v), fn), self.operand_int(1))] + self.print_of(ft, ("field", ("var", v), fn))
+            return [("aug", self.r.choice(["+", "-", "*"]), e, self.operand_int(1))] + self.print_of(ft, e)
         if ft == STR:
             self.feat.add("field.set_str")
-        return [("setfield", ("var", v), fn, self.owned(ft, 1))] + self.print_of(ft, ("field", ("var", v), fn))
+        return [("setfield", e[1], e[2], self.owned(ft, 1))] + self.print_of(ft, e)
 
     def mut_method_call(self):
         cands = []
@@ -582,7 +650,7 @@ class Gen:
         out = []
         for _ in range(self.r.randint(1, maxn)):
             out += self.stmt(d)
-        self.scopes.pop()
+        self.pop_scope()
         return out
 
     def stmt(self, d):
@@ -652,7 +720,7 @@ class Gen:
         self.loop_depth += 1
         body = [("print", ("var", v))] + self.block(d + 1, 2)
         self.loop_depth -= 1
-        self.scopes.pop()
+        self.pop_scope()
         return [("for", v, ("builtin", "range", args), body)]
 
     def for_list(self, d):
@@ -663,7 +731,7 @@ class Gen:
         self.loop_depth += 1
         body = [("print", ("bin", "+", ("var", v), ("int", 1)))] + self.block(d + 1, 2)
         self.loop_depth -= 1
-        self.scopes.pop()
+        self.pop_scope()
         return [("for", v, src, body)]
 
     def for_str(self, d):
@@ -672,7 +740,7 @@ class Gen:
         self.loop_depth += 1
         body = [("print", ("var", v))]
         self.loop_depth -= 1
-        self.scopes.pop()
+        self.pop_scope()
         return [("for", v, self.atom_str(), body)]
 
     def match_int(self, d):
@@ -724,7 +792,7 @@ class Gen:
                 body += self.block(2, 2)
             body.append(("return", self.e_of(ret, 0)))
             self.in_func = None
-            self.scopes.pop()
+            self.pop_scope()
             self.decls.append({"kind": "func", "name": name, "params": params, "ret": ret, "body": body})
             # callers pass all params positionally; trailing default may be omitted
             if params and params[-1][2] is not None and r.random() < 0.5:
@@ -741,7 +809,7 @@ class Gen:
     def make_models(self):
         r = self.r
         P = "C%s" % self.cid
-        for k in range(r.randint(0, 2)):
+        for k in range(r.choice([0, 1, 2, 2, 3])):
             name = P + r.choice(["Point", "User", "Acc", "Box"]) + str(k)
             kind = "class" if self.on("decl.class", 0.3) else "model"
             fields = []
@@ -750,11 +818,15 @@ class Gen:
                 ft = r.choice([INT, INT, STR, FLOAT, BOOL])
                 fn = r.choice(["x", "y", "n", "name", "tag", "w", "total", "flag"]) + str(i)
                 fields.append((fn, ft))
+            if self.models and kind == "model" and self.on("model.nested_field", 0.7):
+                # a field whose type is an earlier model: places like v.child.x / xs[0].child.x become expressible
+                fields.append(("child%d" % k, ("model", self.r.choice(self.models)[0])))
             fdecl = []
             for i, (fn, ft) in enumerate(fields):
                 dflt = None
                 if i == len(fields) - 1 and self.on("model.field_default", 0.3):
-                    dflt = {INT: ("int", 7), STR: ("str", "dflt"), FLOAT: ("float", 0.5), BOOL: ("bool", True)}[ft]
+                    dflt = {INT: ("int", 7), STR: ("str", "dflt"), FLOAT: ("float", 0.5), BOOL: ("bool", True)}.get(ft)
+                if dflt is not None:
                     defaults[fn] = dflt
                 fdecl.append((fn, ft, dflt))
             methods, msigs = [], []
@@ -763,7 +835,7 @@ class Gen:
             if intf and self.on("model.method_getter", 0.6):
                 self.scopes.append({"p0": (INT, False)})
                 body = [("return", ("bin", "+", ("field", ("var", "self"), intf[0]), ("bin", "*", ("var", "p0"), ("int", r.randint(1, 3)))))]
-                self.scopes.pop()
+                self.pop_scope()
                 methods.append({"name": "calc", "recv": "self", "params": [("p0", INT, None)], "ret": INT, "body": body})
                 msigs.append(("calc", [INT], INT, False))
             if intf and self.on("model.method_mut", 0.6):
